@@ -240,6 +240,10 @@ def _gt(e):
     return expr_str(strip(norm_arith(norm_refs(e))), -10)
 
 
+_LEN_MARK = re.compile(r'(^state::State::(data_depth|code_origin)\(|\.ctx\.(ds_len|cs_len|rs_len|fs_len|ls_len|ss_ptr|di_len|rl_len|so_len)$)')
+STD_LEN = {'alloc::vec::Vec::<T, A>::len', 'core::slice::<impl [T]>::len', 'core::str::<impl str>::len', 'alloc::string::String::len'}
+
+
 def build_zone(f, bb, operand_exprs):
     z = Zone()
     facts = guard_facts(f, bb)
@@ -336,6 +340,34 @@ def _counted_by_helper(fx, e):
 
 def def_facts(f, z, x, k):
     tag = x[0]
+    if tag == 'call' and x[1] in STD_LEN:
+        # an allocation is at most isize::MAX bytes (a language guarantee of Vec / slice / str): so is the element count
+        z.add(k, '0', 0)
+        z.add('0', k, -((1 << 63) - 1))
+    if tag == 'proj' and tuple(x[2]) == ('as Some', '0') and isinstance(strip(x[1]), tuple) and strip(x[1])[0] == 'call' and \
+            strip(x[1])[1].endswith('::checked_sub') and ('usize' in strip(x[1])[1] or 'u64' in strip(x[1])[1] or 'u32' in strip(x[1])[1]):
+        # the Some payload of a.checked_sub(b) is a - b with b >= 0: at most a
+        c_ = strip(x[1])
+        z.add(k, '0', 0)
+        la = lin(c_[2][0])
+        if la and len(la[0]) == 1 and list(la[0].values())[0] == 1 and la[1] == 0:
+            z.add(list(la[0].keys())[0], k, 0)
+            # make sure the minuend's own definitional bounds are known
+            ka = list(la[0].keys())[0]
+            if _LEN_MARK.search(ka):
+                z.add(ka, '0', 0)
+                z.add('0', ka, -((1 << 63) - 1))
+    if tag == 'call' and x[1].endswith('::checked_sub') and len(x[2]) == 2 and ('usize' in x[1] or 'u64' in x[1] or 'u32' in x[1]):
+        # the Some payload of a.checked_sub(b) is a - b with b >= 0: at most a
+        z.add(k, '0', 0)
+        la = lin(x[2][0])
+        if la and len(la[0]) == 1 and list(la[0].values())[0] == 1 and la[1] == 0:
+            z.add(list(la[0].keys())[0], k, 0)
+    if _LEN_MARK.search(k) and not k.startswith(('Sub(', 'Add(', 'Neg(', 'cast(')):
+        # a mark of a length (ctx.ds_len, code_origin(), data_depth()): taken from some Vec::len() - I-FLOOR / I-STACK - so it
+        # shares the bound of a length
+        z.add(k, '0', 0)
+        z.add('0', k, -((1 << 63) - 1))
     if tag == 'bin':
         op = x[1]
         a, b = strip(x[2]), strip(x[3])
@@ -395,6 +427,9 @@ def upper_by_type(f, e, depth=0):
     if e[0] == 'const':
         v = e[1].get('v')
         return v if isinstance(v, int) and v >= 0 else INF
+    if e[0] == 'arg' and isinstance(e[1], int):
+        ta = f.local_ty(e[1]) if e[1] < len(f.locals) else ''
+        return (1 << BITS[ta]) - 1 if ta in UNSIGNED else INF
     if e[0] == 'cast':
         src = upper_by_type(f, e[2], depth + 1)
         inner = unwrap_value(strip(e[2]))
@@ -626,7 +661,9 @@ def compute_tainted_params(fx, reach):
 
 def sig_of(f, exprs):
     # local numbers (loop-carried values print as ('cycle', n)) are compiler artefacts: not part of a key
-    s = ','.join(re.sub(r"\('(cycle|undef|unknown)',\d+\)", r'\1', re.sub(r'\s+', '', expr_str(strip(norm_arith(norm_refs(e))), -6)))[:48] for e in exprs)
+    # ... and so is the way a value travelled: `let (a, b) = (x, y); a` is x (tuple packing undone by simplify)
+    from ..core import simplify as _simp
+    s = ','.join(re.sub(r"\('(cycle|undef|unknown)',\d+\)", r'\1', re.sub(r'\s+', '', expr_str(strip(norm_arith(norm_refs(_simp(e)))), -6)))[:48] for e in exprs)
     return s
 
 
@@ -788,6 +825,11 @@ def auto_discharge(fx, f, s, tainted_params):
                     return 'D-TYPE', 'operands bounded by their definitions (%s + %s)' % (ua, ub_)
                 if op == 'Mul' and ua != INF and ub_ != INF and ua * ub_ <= lim:
                     return 'D-TYPE', 'operands bounded by their definitions (%s * %s)' % (ua, ub_)
+                # bounded by the guards on the way here (x < v.len(), and a length is at most isize::MAX)
+                if op == 'Add':
+                    za, zb = min(ua, z.upper(lin(a))), min(ub_, z.upper(lin(b)))
+                    if za != INF and zb != INF and za + zb <= lim:
+                        return 'D-ZONE', 'operands bounded on this path (%s + %s) by %s' % (za, zb, gtxt[:2])
                 if taint:
                     return None
                 if op == 'Add' and (is_counter(a) and ub_ != INF and ub_ <= 64 or is_counter(b) and ua != INF and ua <= 64):
@@ -904,6 +946,13 @@ def discharge_call(fx, f, s, tainted_params):
                     if (sa == d and sb == '0') or (sb == d and sa == '0'):
                         return 'D-ZONE', 'divisor != 0 on this path (dominating `== 0` test returns DivisionByZero)'
             return None
+        if k2 == 'unwrap' and len(ops) >= 1:
+            # char::from_u32(x).unwrap() with x below the surrogate range by its type (a byte widened to u32)
+            e0 = strip(ops[0])
+            if isinstance(e0, tuple) and e0[0] == 'call' and e0[1].endswith('::from_u32') and e0[2]:
+                ub0 = upper_by_type(f, e0[2][0])
+                if ub0 < 0xD800:
+                    return 'D-TYPE', 'char::from_u32 of a value <= %s: every value below 0xD800 is a scalar value' % ub0
         if k2 == 'chunks':
             r = strip(ops[-1])
             if isinstance(r, tuple) and r[0] == 'const' and r[1].get('v', 0) > 0:
@@ -1084,6 +1133,42 @@ def _pname(p):
     return p.get('f') if isinstance(p, dict) else p
 
 
+def _finder_field(fx, gname, depth):
+    """field F if the crate-local method gname(self, ..) returns - bare, or wrapped in Some / Ok, on every path that returns an
+    index at all - an index found by position()/rposition() over self.F.iter(), directly or through another such finder"""
+    if depth > 3 or gname not in fx.fns:
+        return None
+    g = fx.fns[gname]
+
+    def alts(e, d=0):
+        e = unwrap_value(strip(e))
+        if isinstance(e, tuple) and e[0] == 'phi' and d < 5:
+            return [y for x in e[1] for y in alts(x, d + 1)]
+        if isinstance(e, tuple) and e[0] == 'agg' and e[2] in ('Ok', 'Some') and e[3] and d < 5:
+            return alts(e[3][0], d + 1)
+        return [e]
+    fields = set()
+    for r in alts(g.expr_of_local(0)):
+        if isinstance(r, tuple) and r[0] == 'agg' and r[2] in ('None', 'Err'):
+            continue
+        if isinstance(r, tuple) and r[0] == 'call' and 'FromResidual' in r[1]:
+            continue              # the error exit of a `?`
+        if isinstance(r, tuple) and r[0] == 'call' and (r[1].endswith('::rposition') or r[1].endswith('::position')) and r[2]:
+            src = expr_str(r[2][0], -20)
+            m = re.search(r'\(\*arg1\)\.(\w+)', src)
+            if m and 'iter' in src and '::rev' not in src and 'skip' not in src:
+                fields.add(m.group(1))
+                continue
+            return None
+        if isinstance(r, tuple) and r[0] == 'call' and r[1] in fx.fns and r[2] and 'arg1' in expr_str(r[2][0], -6):
+            sub = _finder_field(fx, r[1], depth + 1)
+            if sub:
+                fields.add(sub)
+                continue
+        return None
+    return fields.pop() if len(fields) == 1 else None
+
+
 def _position_of_same(fx, f, coll, idx):
     """v[i] where i is the Some-payload of position()/rposition() over v.iter() - found directly or by a crate-local finder
     method of the same receiver - and this function does not shrink v: the index is below len"""
@@ -1101,14 +1186,7 @@ def _position_of_same(fx, f, coll, idx):
             return None
         finder_field = None
         if a[1] in fx.fns and a[2]:
-            g = fx.fns[a[1]]
-            r = unwrap_value(strip(g.expr_of_local(0)))
-            if isinstance(r, tuple) and r[0] == 'call' and (r[1].endswith('::rposition') or r[1].endswith('::position')) and r[2]:
-                src = expr_str(r[2][0], -20)
-                m = re.search(r'\(\*arg1\)\.(\w+)', src)
-                if m and 'iter' in src and '::rev' not in src and 'skip' not in src:
-                    finder_field = m.group(1)
-                    recv = _place_text(a[2][0])
+            finder_field = _finder_field(fx, a[1], 0)
         elif (a[1].endswith('::rposition') or a[1].endswith('::position')) and a[2]:
             src = expr_str(a[2][0], -20)
             if 'iter' in src and place in src and 'skip' not in src and '::rev' not in src:
@@ -1302,9 +1380,11 @@ def try_discharge(fx, f, s, key, tainted_params, table, used):
     if res is None and key not in table:
         # an entry may leave the operands open (`*`) where the argument does not depend on how they are written and rests on a
         # guard, which is mandatory for such an entry and re-checked below
-        wk = site_key(s['fn'], s['kind'], '*')
-        if wk in table and table[wk][0] not in ('', '-'):
-            key = wk
+        for fn_ in (s['fn'], s['fn'].split('::{closure')[0]):
+            wk = site_key(fn_, s['kind'], '*')
+            if wk in table and table[wk][0] not in ('', '-'):
+                key = wk
+                break
     if res is None and key in table:
         needs, reason = table[key]
         used.add(key)
@@ -1321,7 +1401,8 @@ def try_discharge(fx, f, s, key, tainted_params, table, used):
         elif needs and needs != '-':
             _, gtxt = build_zone(f, s['bb'], s['ops'])
             hay = ' ; '.join(gtxt) + ' ; ' + ' ; '.join(_calls_dominating(f, s['bb']))
-            ok_needs = all(n_.strip() in hay for n_ in needs.split('&&'))
+            _sat = lambda hay_: all(any(alt.strip() in hay_ for alt in n_.split('||')) for n_ in needs.split('&&'))
+            ok_needs = _sat(hay)
             if not ok_needs and not getattr(f, 'inlined', None) and f.name in fx.fns:
                 # the guard may have moved into an unnamed helper called before the site: look again with helpers spliced in
                 if _VIEW[0] is None or _VIEW[0].fx is not fx:
@@ -1332,7 +1413,7 @@ def try_discharge(fx, f, s, key, tainted_params, table, used):
                         if s2['kind'] == s['kind'] and s2.get('at') == s.get('at') and not s2['term'].get('inl'):
                             _, g2 = build_zone(vf, s2['bb'], s2['ops'])
                             hay2 = ' ; '.join(g2) + ' ; ' + ' ; '.join(_calls_dominating(vf, s2['bb']))
-                            if all(n_.strip() in hay2 for n_ in needs.split('&&')):
+                            if _sat(hay2):
                                 ok_needs = True
         if ok_needs:
             return ('D-REVIEWED', reason + ('' if needs in ('', '-') else ' [guard re-checked: %s]' % needs)), None
@@ -1452,7 +1533,10 @@ def _to_uint_callers_bound_len(fx):
         for caller in fx.callers().get(target, ()):
             if caller == 'bitstr::Bitstr::to_int' or caller not in fx.fns:
                 continue
-            f = fx.fns[caller]
+            # the length test may sit in a private helper shared by the readers (`peek_int_bits`): look with helpers spliced in
+            if _VIEW[0] is None or _VIEW[0].fx is not fx:
+                _VIEW[0] = inline.View(fx)
+            f = _VIEW[0](caller)
             for bb, t in f.calls():
                 if callee_of(t) != target:
                     continue
